@@ -7,7 +7,9 @@ from . import trajgen as G
 
 RULE = ("trajectories with 1..8 segments whose x, y, z encodings are constant, linear or cubic (all combinations), all scales, "
         "coordinates incl. +-32767/-32768, interior extrema frequent (control points outside the end-point range); a class "
-        "with degree-7 axes (recorded finding D13); the repository fixtures. Non-trivial = at least one cubic axis.")
+        "aimed at the closed-form solvers (derivative with an exactly zero linear or quadratic coefficient, coincident control "
+        "points), a class with zero-duration segments that leave the hull of the others, a class with degree-7 axes (recorded "
+        "finding D13); the repository fixtures. Non-trivial = at least one cubic axis.")
 EXPLANATION = ("for every axis: certified [min_lo, min_hi] and [max_lo, max_hi] enclose the exact extrema over all segments; the "
                "implementation's face must lie in that enclosure widened by the float tolerance: contains everything and is attained")
 ASSUMPTIONS = ["float tolerance 200 * 2^-23 * 27 * max|coordinate| + 1e-4 * (range of the axis) is an assumed bound",
@@ -24,6 +26,38 @@ def cases(rng, tier):
         hi = (i % 25 == 0)
         tr = G.rand_traj(rng, nseg=rng.choice([1, 2, 3, 5, 8]), maxdeg=(7 if hi else 3))
         yield ("stats bbox %s" % hexs(G.encode(tr)), "deg7" if hi else "gen")
+    # aimed at the closed-form solvers: cubic axes whose derivative has an exactly zero linear coefficient
+    # (control points with p0 - 2 p1 + p2 = 0), zero quadratic coefficient, coincident control points
+    for i in range(n // 5):
+        tr = G.rand_traj(rng, nseg=rng.choice([1, 2, 3]), maxdeg=3)
+        prev = list(tr["start"][:3])                      # in stored units (times scale on both sides)
+        for s in tr["segs"]:
+            for ai, ax in enumerate("xyz"):
+                if len(s[ax]) == 3 and rng.random() < 0.7:
+                    p0 = prev[ai]
+                    d = rng.randint(-2500, 2500)
+                    kind = rng.choice(["b0", "b0", "flat", "same"])
+                    if kind == "b0":
+                        s[ax] = [p0 + d, p0 + 2 * d, rng.choice([p0, p0 - d, rng.randint(-6000, 6000)])]
+                    elif kind == "flat":
+                        s[ax] = [p0, p0, p0 + d]
+                    else:
+                        s[ax] = [p0 + d, p0 + d, p0]
+                    s[ax] = [max(-32768, min(32767, v)) for v in s[ax]]
+                if s[ax]:
+                    prev[ai] = s[ax][-1]
+        yield ("stats bbox %s" % hexs(G.encode(tr)), "aimed-solver")
+    # zero-duration segments (also the last one) that leave the hull of the others
+    for i in range(n // 10):
+        tr = G.rand_traj(rng, nseg=rng.choice([2, 3, 4]), maxdeg=3)
+        k = rng.choice([len(tr["segs"]) - 1, rng.randrange(len(tr["segs"]))])
+        tr["segs"][k]["dur"] = 0
+        for ax in "xyz":
+            if tr["segs"][k][ax]:
+                tr["segs"][k][ax] = [rng.choice([20000, -20000, 30000]) for _ in tr["segs"][k][ax]]
+            elif rng.random() < 0.6:
+                tr["segs"][k][ax] = [rng.choice([20000, -20000])]
+        yield ("stats bbox %s" % hexs(G.encode(tr)), "zero-duration-segment")
 
 
 def compare(case, om, oi):
